@@ -52,12 +52,39 @@ class SymCtx(Ctx):
         self.ex, self.mods = ex, mods
         self.env = TG.sym_env(ex, sk)
         self.env.update({k: v for k, v in self.params.items() if not TG.is_var(v)})
+        self.batch = []
+        self.memo = _W.setdefault("memo", {}).setdefault(sk.get("id"), {})
+
+    def cached(self, key, fn):
+        """oracle terms depend on the skeleton's inputs only: built once per skeleton and worker."""
+        if key not in self.memo:
+            self.memo[key] = fn()
+        return self.memo[key]
 
     def assume(self, c):
         self.ex.assume(c)
 
     def prove(self, c, label, detail=None):
-        return self.ex.prove(c, label, detail)
+        self.batch.append((c, label, detail))
+        return True
+
+    def flush(self):
+        if self.batch:
+            self.ex.prove_all(self.batch)
+            self.batch = []
+
+    def prove_ratio(self, p, num, den, label, detail=None, scale=100, places=2):
+        """p must be round(scale*num/den, places).  Linear strong form first (numerator and denominator
+        separately, via the value's provenance); only if that fails the exact cross-multiplied form."""
+        from .engine import provenance, sand
+        pv = provenance(p)
+        if pv is not None and pv[0] == scale and pv[3] == places:
+            if self.ex.holds(sand(pv[1] == num, pv[2] == den)):
+                return self.prove(True, label, detail)
+            return self.prove(pv[1] * den == num * pv[2], label, detail)
+        half = 0.5 / (10 ** places)
+        return self.prove(sand(p * den - scale * num <= half * den, scale * num - p * den <= half * den), label,
+                             detail)
 
     def nontrivial(self, c=True):
         if not self.ex.notes.get("nontrivial") and self.ex.can(c):
@@ -85,6 +112,12 @@ class NativeCtx(Ctx):
         self.outdir = outdir
         self.assume_failed = []
         self.mods = None
+
+    def cached(self, key, fn):
+        return fn()
+
+    def flush(self):
+        pass
 
     def assume(self, c):
         if not bool(c):
@@ -133,6 +166,11 @@ def _worker_init(hname, qtimeout):
     _W["h"] = h
     _W["mods"] = loader.load(h.MODULES)
     _W["qtimeout"] = qtimeout
+    from . import pdcore
+    pdcore.TIE_MODE["stable_funcs"] = set(getattr(h, "TIE_STABLE_FUNCS", ()))
+    pdcore.TIE_MODE["mode"] = getattr(h, "TIE_MODE", "adversarial")
+    pdcore.TIE_MODE["skip_funcs"] = set(getattr(h, "SORT_SKIP_FUNCS", ()))
+    pdcore.TIE_MODE["max_run"] = getattr(h, "TIE_MAX_RUN", 4)
     if hasattr(h, "setup_worker"):
         h.setup_worker(_W["mods"])
 
@@ -164,6 +202,7 @@ def _job(args):
     def path_fn(ex_):
         ctx = SymCtx(sk, ex_, mods)
         h.run(ctx)
+        ctx.flush()
 
     def on_path(p):
         if p["notes"].get("nontrivial"):
@@ -288,7 +327,7 @@ def run_check(hname, tier, jobs=None, budget_s=None):
         futs = {}
         while pending_jobs or futs:
             while pending_jobs and len(futs) < jobs * 2:
-                j = pending_jobs.pop()
+                j = pending_jobs.pop(0)
                 futs[pool.submit(_job, j)] = j
             done, _ = wait(list(futs), return_when=FIRST_COMPLETED)
             for f in done:
@@ -398,6 +437,10 @@ def run_check(hname, tier, jobs=None, budget_s=None):
             "functions_encoded": sorted({q for _, q in agg["functions"]}),
             "source_files": {f: file_sha(f) for f in files if os.path.exists(f)},
             "stubs": getattr(h, "STUBS", []),
+            "sort_tie_policy": {"mode": getattr(h, "TIE_MODE", "adversarial"),
+                                "sorts_taken_as_stable_in": sorted(getattr(h, "TIE_STABLE_FUNCS", ())),
+                                "sorts_not_modelled_in": sorted(getattr(h, "SORT_SKIP_FUNCS", ())),
+                                "max_fully_permuted_run": getattr(h, "TIE_MAX_RUN", 4)},
             "shadowed_builtins": ["int", "float", "round", "min", "max", "sum"],
             "counterexamples_not_reproduced_natively": diverged[:10],
             "unsupported_samples": agg["unsupported"][:5],
